@@ -62,7 +62,7 @@ theorem shape_canon (d : Doc) (h : d.ok = true) : Shape d.toTree = true := by
     (the specification leaves the treatment of info strings open, so this is not a finding). -/
 theorem math_info_counterexample :
     ∃ d : Doc, d.wf = true ∧ renderHtml {} {} d.toTree ≠ d.refHtml :=
-  ⟨⟨.cons (.fence 0x60 3 mathInfo [[0x78]]) .nil⟩, by decide, by decide⟩
+  ⟨⟨.cons (.fence 0x60 3 mathInfo [[0x78]]) .nil, []⟩, by decide, by decide⟩
 
 /-! Non-vacuity: a document with an ATX heading, a two-line setext heading with strikethrough, an
 indented code block, a loose ordered list starting at 7 whose first item
@@ -81,7 +81,7 @@ def sampleDoc : Doc :=
                     .emph false (Inls.ofList [.text [.ch 0x62]]),
                     .text [.ch 0x20, .ent 0, .esc 0x5B],
                     .hard true,
-                    .link [0x2F, 0x75, 0x3F, 0x61, 0x26, 0x62] [0x74, 0x3C] false
+                    .link [0x2F, 0x75, 0x3F, 0x61, 0x26, 0x62] [0x74, 0x3C] false (.ref [0x52, 0x31] [0x72, 0x31] false)
                       (Inls.ofList [.strong true (Inls.ofList [.text [.ch 0x78]]), .text [.esc 0x21]]),
                     .soft,
                     .image [0x69, 0x2E, 0x70, 0x6E, 0x67] [] true (Inls.ofList [.text [.ch 0x7A]]),
@@ -91,11 +91,12 @@ def sampleDoc : Doc :=
                                  Blks.ofList [.para (Inls.ofList [.text [.ch 0x63]]), .quote (Blks.ofList [.hr 0x2A 3])]]) ],
             Blks.ofList
               [ .quote (Blks.ofList [.fence 0x7E 4 [0x72, 0x73] [[0x3C, 0x61, 0x3E], [], [0x20, 0x62]]]) ] ]),
-      .hr 0x2D 5 ]⟩
+      .hr 0x2D 5 ],
+   [{ label := [0x52, 0x31], url := [0x78], title := [], angle := false, before := false }]⟩
 
 example : sampleDoc.ok = true := by decide +kernel
 
-example : sampleDoc.write.length = 195 := by decide +kernel
+example : sampleDoc.write.length = 213 := by decide +kernel
 example : Shape sampleDoc.toTree = true := by decide +kernel
 
 end Comrak.C03
